@@ -21,6 +21,13 @@ const far = 5000   // a literal of 64-bit magnitude or beyond
 var oddSpellings = []string{"0x1", "+1", "1_0", "0b1", "0o7", "1.0", "1e1", "0x", "१"}
 
 // farLiteral spells the far-out values so that a reading that wraps around at 64 bits lands inside the legal range.
+// The bounds of RFC 7950 9.6.4.2 / 9.7.4.2, written out here: the library's own constants are part of what is checked.
+const (
+	minEnum   = -2147483648
+	maxEnum   = 2147483647
+	maxBitPos = 4294967295
+)
+
 func farLiteral(v int64, i int) string {
 	if v > 0 {
 		return []string{"18446744073709551615", "18446744071562067968", "9223372036854775808", "36893488147419103239"}[i%4]
@@ -48,9 +55,9 @@ type cas struct {
 
 // gamma embeds the model's clusters at the real bounds.
 func gamma(v int64, uniq bool) int64 {
-	min, max := int64(yang.MinEnum), int64(yang.MaxEnum)
+	min, max := int64(minEnum), int64(maxEnum)
 	if !uniq {
-		min, max = 0, yang.MaxBitfieldSize-1
+		min, max = 0, maxBitPos
 	}
 	switch {
 	case uniq && v <= -900:
@@ -58,7 +65,7 @@ func gamma(v int64, uniq bool) int64 {
 	case v >= 900:
 		return max + (v - 1000)
 	case !uniq && v >= 400:
-		return int64(yang.MaxEnum) + (v - 500) // an inner cluster for bits: around 2^31-1
+		return int64(maxEnum) + (v - 500) // an inner cluster for bits: around 2^31-1
 	}
 	return v
 }
@@ -322,9 +329,9 @@ func gen(body []byte) *core.Verdict {
 	json.Unmarshal(body, &q)
 	rng := rand.New(rand.NewSource(q.Seed*7919 + int64(q.Tid)))
 	uniq := rng.Intn(2) == 0
-	min, max := int64(yang.MinEnum), int64(yang.MaxEnum)
+	min, max := int64(minEnum), int64(maxEnum)
 	if !uniq {
-		min, max = 0, yang.MaxBitfieldSize-1
+		min, max = 0, maxBitPos
 	}
 	anchors := []int64{0, 1, -1, min, max, min - 1, max + 1, max - 1, min + 1, 1<<31 - 1, 1<<31 - 2, 7, 8, 100, -100, 1 << 31, 1<<32 - 2, 1 << 40, -(1 << 40), 1<<63 - 1, -1 << 63}
 	n := 1 + rng.Intn(20)
